@@ -32,7 +32,7 @@ func draw(t *rapid.T) sim.ChainCase {
 	g := sim.GenChain(t, sim.GenOpts{
 		Net:       sim.NetOpts{MaxForkHeight: rapid.SampledFrom([]int{6, 12, 25, 40}).Draw(t, "forkSpan"), V2Only: rapid.IntRange(0, 5).Draw(t, "v2only") == 0},
 		MinBlocks: 6, MaxBlocks: max, Reorgs: true, MaxReorg: 8, Profile: sim.Profile{Contracts: rapid.IntRange(0, 3).Draw(t, "contractWeight"), MaxTxns: 6},
-		OnBlock: sim.SameBlockScenarios,
+		OnBlock: sim.SameBlockScenarios, StrayProofs: true,
 	})
 	c, err := g.Case.Normalize()
 	if err != nil {
